@@ -44,7 +44,7 @@ class Ctx:
         """a seeded sample of the cases is re-evaluated inside Coq (vm_compute of Runner.run_line)
         and compared with what the extracted OCaml runner printed: extraction and the OCaml glue
         are thereby validated against the kernel's evaluator"""
-        pool = [c for c in cases if c.id in res.model and len(c.line) < 1500]
+        pool = [c for c in cases if c.id in res.model and len(c.line) < 1200 and len(self._raw_model.get(c.id, '')) < 1200]
         if not pool:
             return
         rng = random.Random(self.seed + 17)
@@ -52,10 +52,14 @@ class Ctx:
         def lst(b):
             return '[' + ';'.join(str(x) for x in b) + ']'
         rows = []
+        budget = 150000
         for c in sample:
             out = self._raw_model.get(c.id)
             if out is None:
                 continue
+            budget -= len(c.line) + len(out)
+            if budget < 0:
+                break
             rows.append('(%s, %s)' % (lst(c.line.encode('utf-8')), lst(out.encode('utf-8'))))
         if not rows:
             return
@@ -64,7 +68,7 @@ class Ctx:
             f.write('From Rules Require Import Base Runner.\nOpen Scope N_scope.\n')
             f.write('Definition cases : list (bytes * bytes) := [\n' + ';\n'.join(rows) + '].\n')
             f.write('Definition bad := Eval vm_compute in length (filter (fun io => negb (bytes_eqb (run_line (fst io)) (snd io))) cases).\nPrint bad.\n')
-        p = subprocess.run(['bash', '-c', 'cd %s && timeout 1200 coqc -Q %s/coq Rules KernelCheck.v' % (self.work, VERIF)],
+        p = subprocess.run(['bash', '-c', 'ulimit -s unlimited 2>/dev/null; cd %s && timeout 1200 coqc -Q %s/coq Rules KernelCheck.v' % (self.work, VERIF)],
                            stdout=subprocess.PIPE, stderr=subprocess.PIPE)
         out = p.stdout.decode('utf-8', 'replace')
         ok = p.returncode == 0 and re.search(r'bad\s*=\s*0\b', out) is not None
